@@ -30,8 +30,10 @@ Record assertion := mkA {
   a_headers : list (bytes * bytes);              (* the string-valued headers, incl. type *)
   a_content : bytes;                             (* the signed bytes *)
   a_sig : bytes;                                 (* the base64-decoded signature *)
-  a_sig_core : bytes                             (* the same OpenPGP signature packet with its UNHASHED subpacket area
-                                                    emptied: the part signature verification reads (driver projection) *)
+  a_sig_core : bytes                             (* the fields of that OpenPGP signature packet that verification reads:
+                                                    version, type, algorithms, hashed subpackets, hash tag, MPI bytes -
+                                                    without the packet header (form, declared length), the UNHASHED
+                                                    subpacket area and the MPI bit-length field (driver projection) *)
 }.
 
 Fixpoint assoc (k : bytes) (m : list (bytes * bytes)) : option bytes :=
